@@ -316,6 +316,37 @@ class Report:
         return [o for o in self.obligations if not o.ok]
 
 
+
+def run_as(rule_fn, new_id: str, ctx, rep: "Report"):
+    """Runs a rule function written for another property under the rule id `new_id`: its obligations, instance counts and
+    missing-mechanism reports are filed under the new id (the analysis is shared, the claim is per property)."""
+
+    class _Proxy:
+        def __init__(self, inner):
+            self._i = inner
+
+        def ob(self, rule, site, key, ok, msg, **detail):
+            return self._i.ob(new_id, site, key, ok, msg, **detail)
+
+        def note(self, txt):
+            self._i.note(txt)
+
+        def count(self, rule):
+            return self._i.count(new_id)
+
+        def require_instances(self, rule, minimum, what):
+            return self._i.require_instances(new_id, minimum, what)
+
+        def __getattr__(self, name):
+            return getattr(self._i, name)
+
+    try:
+        rule_fn(ctx, _Proxy(rep))
+    except AnalysisError as e:
+        e.rule = new_id
+        raise
+
+
 @dataclass
 class Rule:
     rid: str
